@@ -8,7 +8,7 @@ executed symbolically with the limits as solver integers (or None).
 from __future__ import annotations
 
 from harness.c01 import NL, Sink, Stream
-from symex.poly import pand, pconcat, peq, pimplies, plen, pnone_in, pnot, por
+from symex.poly import pall_in, pand, pconcat, peq, pimplies, plen, pnone_in, pnot, por
 
 PROPERTY = "C10"
 BOUNDS = {
@@ -248,7 +248,66 @@ def body_input_stream(I, X, cl_kind="text"):
     return ok, obs
 
 
+def body_urlencoded_limits(I, X, n=2, with_cl=False, use_mfms=False):
+    """urlencoded forms (FormDataParser.parse_from_environ -> get_input_stream ->
+    _parse_urlencoded): limits are pure guards -- under max_content_length (server-terminated
+    stream, with or without CONTENT_LENGTH) or max_form_memory_size the parse either raises
+    RequestEntityTooLarge or returns exactly the unlimited result; never a truncated form"""
+    from harness.c01 import Stream
+    from werkzeug.exceptions import RequestEntityTooLarge
+    from werkzeug.formparser import FormDataParser
+
+    v = X.str("v", n, minlen=n, maxcp=0x7A)
+    X.assume(pall_in(v, [(0x30, 0x39), (0x61, 0x7A)]))
+    body = pconcat("k=", v, "&z=1").encode("ascii")
+    total = 2 + n + 4
+    M = X.int("M", 0, total + 2)
+
+    def environ():
+        e = {"wsgi.input": Stream(body), "wsgi.input_terminated": True, "CONTENT_TYPE": "application/x-www-form-urlencoded", "REQUEST_METHOD": "POST"}
+        if with_cl:
+            e["CONTENT_LENGTH"] = str(total)
+        return e
+
+    def items(res):
+        return [tuple(kv) for kv in I.call(res[1].items, (), {"multi": True})]
+
+    if use_mfms and not with_cl:
+        # known finding: without a declared length the memory limit is never applied to
+        # urlencoded data (the whole stream is read into memory)
+        X.known("C10-urlencoded-memory-limit-needs-content-length", M < total)
+    ref = items(I.call(FormDataParser().parse_from_environ, (environ(),)))
+    kw = {"max_form_memory_size": M} if use_mfms else {"max_content_length": M}
+    fp = I.call(FormDataParser, (), kw)
+    try:
+        got = items(I.call(fp.parse_from_environ, (environ(),)))
+    except RequestEntityTooLarge:
+        # raising is only justified when the body does not fit
+        return (M <= total) if not isinstance(M <= total, bool) else (M <= total), {"outcome": "413"}
+    ok = len(got) == len(ref)
+    if ok:
+        for (a, b), (c, d) in zip(got, ref):
+            ok = pand(ok, peq(a, c), peq(b, d))
+    if use_mfms:
+        # the whole body was held in memory as one string: it must fit the limit
+        ok = pand(ok, total <= M)
+    return ok, {"outcome": [list(x) for x in got]}
+
+
+def make_stubs():
+    from harness.c02 import make_stubs as m
+
+    return m()
+
+
 def obligations(tier, seed):
+    extra = []
+    for n in ((1,) if tier == "quick" else (0, 1, 2, 3)):
+        for with_cl in (False, True):
+            for use_mfms in (False, True):
+                extra.append({"name": f"urlencoded_limits[n={n},cl={with_cl},mfms={use_mfms}]", "body": "body_urlencoded_limits",
+                              "params": {"n": n, "with_cl": with_cl, "use_mfms": use_mfms},
+                              "opts": {"budget_s": 900, "ctx": {"max_cp": 0x7F, "bv_ints": True}}})
     out = []
     quick = tier == "quick"
     shapes = [("field",), ("field", "field"), ("field", "file"), ("file", "field", "field")]
@@ -294,4 +353,4 @@ def obligations(tier, seed):
     for k in ("text", "absent"):
         out.append({"name": f"input_stream[{k}]", "body": "body_input_stream", "params": {"cl_kind": k},
                     "opts": {"budget_s": 900, "ctx": {"max_cp": 0x7FF}}, "witness": k == "text"})
-    return out
+    return out + extra
